@@ -67,7 +67,8 @@ P = {
 }
 
 BUILT = set(open('/verif/built.txt').read().split())
-FUZZ = {"C03", "C08", "C09", "C10", "C15"}
+DEDICATED_FUZZ = {"C03", "C08", "C09", "C10", "C15"}
+NO_FUZZ = {"C12", "C13"}  # complete enumerations only
 
 checks = []
 na = []
@@ -85,7 +86,7 @@ for pid in sorted(P):
         "engine": "egverif",
         "level_claimed": {"category": cat, "text": text, "design_ref": ref},
         "level_note": note,
-        "technique": tech,
+        "technique": tech + ("" if pid in NO_FUZZ else ("; thorough tier adds a coverage-guided libFuzzer campaign on the same decoders and oracles (" + ("dedicated target" if pid in DEDICATED_FUZZ else "generic target") + ")")),
     })
 
 m = {
